@@ -116,6 +116,16 @@ partial def ppLoop (h : IO.FS.Stream) (ev : Expr → Res) (cur : List Line) : IO
       IO.println s!"BADLINE {line.trimAscii.toString}"
       ppLoop h ev cur
 
+/-- some `/` or `%` in `e` (evaluated or not) has a divisor whose value is zero or that has no value.
+gcc's cpp computes values also in unevaluated operands and, on a zero divisor there, returns the left
+operand *with the left operand's type*; such expressions are compared with c2m but not with gcc. -/
+def hasZeroDiv : Expr → Bool
+  | .lit _ => false
+  | .un _ a => hasZeroDiv a
+  | .bin op a b => hasZeroDiv a || hasZeroDiv b ||
+      ((op == .div || op == .mod) && (match c11Eval b with | .val v => v.bits == 0 | _ => true))
+  | .cond c a b => hasZeroDiv c || hasZeroDiv a || hasZeroDiv b
+
 partial def exprLoop (h : IO.FS.Stream) (f : Expr → String) : IO Unit := do
   let line ← h.getLine
   if line.isEmpty then return ()
@@ -144,10 +154,7 @@ def main (args : List String) : IO Unit := do
   | ["pp", "c2m", m] => ppLoop h (c2mEvalG (maskToFixes m.toNat!)) []
   | ["expr"] =>
     exprLoop h (fun e =>
-      let cls := match classify e with
-        | some m => toString m
-        | none => "-"
-      s!"{showRes (c11Eval e)} {showRes (c2mEval e)} {cls}")
+      s!"{showRes (c11Eval e)} {showRes (c2mEval e)} {if hasZeroDiv e then "z" else "-"}")
   | ["exprmask", m] => exprLoop h (fun e => showRes (c2mEvalG (maskToFixes m.toNat!) e))
   | ["strings"] => strLoop h
   | ["applied"] => IO.println (fixesToMask appliedFixes)
